@@ -488,12 +488,13 @@ def run(chk):
     traces, back = [], []
     shapes = [(["X.qml"], None), (["./X.qml"], None), (["d/X.qml"], None), (["d/./e/X.qml"], None), (["d/../X.qml"], None), (["ABS"], None), (["link/X.qml"], None),
               (["MixedCase.qml"], None), (["Dir/MixedCase.qml"], None), (["X.qml", "d/Y.qml"], None), (["Gui_Prefs.qml"], None), (["Ui_Panel.qml", "uisupport_x/Ui_ui_.qml"], "out"),
+              (["d/X.qml", "e/X.qml"], None), (["d/X.qml", "d/sub/X.qml"], "out"),      # two sources of one file name in one invocation
               (["Settings.Page.qml"], None), (["Dialog.qml", "Dialog.old.qml"], "out"), (["d.e/Main.v2.x.qml", "d.e/Main.qml"], None),      # dots inside the stem and in directories
               (["X.qml"], "out"), (["Dir/MixedCase.qml"], "Out/Gen"), (["X.qml", "d/Y.qml"], "out"), (["ABS"], "out"), (["../X.qml"], "out"), (["d/../X.qml"], "out"),
               (["./X.qml"], "out"), (["d/X.qml"], "out"), (["d/./e/X.qml"], "out/deep"), (["link/X.qml"], "out"),
               (["Dir/MixedCase.qml"], "out"), (["d/X.qml"], "ABSOUT"), (["d/X.qml"], "d"), (["X.qml"], "."), (["X.qml", "ABS"], "out"), (["Dir/A.qml", "dir/A.qml"], None)]
     if quick:
-        shapes = shapes[:21] + r.sample(shapes[21:], 3)
+        shapes = shapes[:23] + r.sample(shapes[23:], 3)
     for si, (srcs, outdir) in enumerate(shapes):
         for lowercase in ((True, False) if any("Mixed" in s or "i_" in s or s.count(".") > 1 for s in srcs) or not quick else (True,)):
             for dynamic in ((True, False) if si % 4 == 0 or not quick else (True,)):
